@@ -267,6 +267,21 @@ theorem step_PInv (C : ClassDesc) (I N vd) (fuel : Nat) (s : St) (op : Op) (h : 
           obtain ⟨rv, l, s2⟩ := res
           exact (evalM_reads_in_cone C I N vd fuel s1 _ _ _ _ hs hm).2
 
+  | setv n v =>
+    simp only [step]
+    cases runVd (C.toEnv I N vd) n v with
+    | error e => exact h
+    | ok v' =>
+      simp only
+      split
+      · exact h
+      · have hs := setV_PInv C ((C.toEnv I N vd).isSwitch n) s n v' h
+        cases hm : evalM (C.toEnv I N vd) fuel (setV ((C.toEnv I N vd).isSwitch n) s n v') (C.toEnv I N vd).validate with
+        | none => exact hs
+        | some res =>
+          obtain ⟨rv, l, s2⟩ := res
+          exact (evalM_reads_in_cone C I N vd fuel _ _ _ _ _ hs hm).2
+
 theorem run_PInv (C : ClassDesc) (I N vd) (fuel : Nat) : ∀ (ops : List Op) (s : St), PInv C s →
     PInv C (run (C.toEnv I N vd) fuel s ops).2 := by
   intro ops
